@@ -25,6 +25,7 @@ func frameGroup(p *core.Prog, rep *core.Report) {
 	cd9OpenCursor(p, rep, bs)
 	cd10LoopCarriedCursor(p, rep)
 	cd11SizePerChunk(p, rep, hdr)
+	cd12ChunkFitsBlock(p, rep)
 	chunkTypeProtocol(p, rep)
 	cd4Framing(p, rep)
 	wr1SingleWrite(p, rep)
@@ -54,6 +55,7 @@ func batchGroup(p *core.Prog, rep *core.Report) {
 	bt3FlushLoopComplete(p, rep)
 	bt4StagedIndexed(p, rep)
 	bt4bBucketAppend(p, rep)
+	bt5SizeBookkeeping(p, rep)
 	ps6SealLast(p, rep)
 	stagedOrder(p, rep)
 }
